@@ -315,8 +315,39 @@ VT1(r) ==
     IN  IF a # p.ok THEN Rej("T1 Syntax.tla and ABNF.tla disagree", <<a, p.ok, IF p.ok THEN "" ELSE p.why>>)
         ELSE Acc
 
+(* ---- the lexer, step by step (coverage beyond the listed properties) ------------------------ *)
+LXD == INSTANCE LexerDefs
+\* r.events: one entry per step of Lexer.run, written by the env-guarded hook:
+\*   [fn, next, pos, start, fd, fs, bs, ntoks];  r.raised: an exception escaped run();
+\*   r.tokens: the final token list as [t, s, e]
+RECURSIVE LexReplay(_, _, _, _, _)
+LexReplay(q, evs, k, name, L) ==
+    IF k > Len(evs) THEN [ok |-> TRUE, name |-> name, L |-> L, at |-> k, why |-> ""]
+    ELSE LET ev == evs[k]
+         IN  IF name = LXD!NONE THEN [ok |-> FALSE, at |-> k, why |-> "the model has stopped, the code took another step"]
+             ELSE IF ev.fn # name THEN [ok |-> FALSE, at |-> k, why |-> "state function differs: model " \o name]
+             ELSE LET r == LXD!Step(q, name, L)
+                  IN  IF r.L.st # "ok" THEN [ok |-> FALSE, at |-> k, why |-> "the model raises in this step, the code did not"]
+                      ELSE IF r.next # ev.next THEN [ok |-> FALSE, at |-> k, why |-> "next state function differs: model " \o r.next]
+                      ELSE IF r.L.pos # ev.pos \/ r.L.start # ev.start THEN [ok |-> FALSE, at |-> k, why |-> "pos/start differ"]
+                      ELSE IF r.L.fd # ev.fd \/ r.L.fs # ev.fs THEN [ok |-> FALSE, at |-> k, why |-> "filter depth / call stack differ"]
+                      ELSE IF r.L.bs # ev.bs THEN [ok |-> FALSE, at |-> k, why |-> "bracket stack differs"]
+                      ELSE IF Len(r.L.toks) # ev.ntoks THEN [ok |-> FALSE, at |-> k, why |-> "number of tokens differs"]
+                      ELSE LexReplay(q, evs, k + 1, r.next, r.L)
+VLex(r) ==
+    LET res == LexReplay(r.q, r.events, 1, "lex_root", LXD!L0)
+    IN  IF ~res.ok THEN Rej("LEXER step does not conform to Lexer.tla", <<res.at, res.why>>)
+        ELSE IF r.raised THEN
+            IF res.name # LXD!NONE /\ LXD!Step(r.q, res.name, res.L).L.st = "raised" THEN Acc
+            ELSE Rej("LEXER the code raised where the model continues", <<res.at>>)
+        ELSE IF res.name # LXD!NONE THEN Rej("LEXER the code stopped where the model continues", <<res.at, res.name>>)
+        ELSE IF [k \in 1..Len(res.L.toks) |-> [t |-> res.L.toks[k].t, s |-> res.L.toks[k].s, e |-> res.L.toks[k].e]] # r.tokens
+            THEN Rej("LEXER token list differs", <<>>)
+        ELSE Acc
+
 Verdict(r) ==
     CASE r.op = "compile" -> VCompile(r)
+      [] r.op = "lex"     -> VLex(r)
       [] r.op = "t1"      -> VT1(r)
       [] r.op = "anchor_find"  -> VAnchorFind(r)
       [] r.op = "anchor_valid" -> VAnchorValid(r)
